@@ -226,7 +226,7 @@ impl Prop for C15 {
         for l in ["greville", "natural(2,2)", "clamped(1,1)", "mixed-end-derivatives", "least-squares", "perturbed-greville", "bunched-in-first-interval"] {
             v.push(format!("layout:{}", l));
         }
-        for d in ["random", "polynomial", "dual-data", "dual2-data", "dual-abscissa", "dual2-abscissa", "basis-dual-abscissa", "basis-dual2-abscissa", "solved-again-on-same-object", "solved-on-object-created-with-coefficients", "mismatched-counts-rejected", "evaluate-before-solve-rejected"] {
+        for d in ["random", "polynomial", "dual-data", "dual2-data", "dual-abscissa", "dual2-abscissa", "python-layer", "basis-dual-abscissa", "basis-dual2-abscissa", "solved-again-on-same-object", "solved-on-object-created-with-coefficients", "mismatched-counts-rejected", "evaluate-before-solve-rejected"] {
             v.push(format!("check:{}", d));
         }
         for c in ["f64xF64", "f64xDual", "f64xDual2", "DualxF64", "DualxDual", "DualxDual2(refused)", "Dual2xF64", "Dual2xDual(refused)", "Dual2xDual2"] {
@@ -348,6 +348,90 @@ impl Prop for C15 {
             }
         };
         ctx.class("check:random");
+        // the Python-facing spline object solved on the same data: the same coefficients, and its evaluators
+        // (single value, arrays, typed abscissae with their refusals) give the core's numbers bit for bit
+        {
+            let mut py = rateslib::splines::PPSplineF64::verif_py_new(k, l.t.clone(), None);
+            let same = |a: f64, b: f64| a.to_bits() == b.to_bits() || a == b;
+            let xs: Vec<f64> = pts.iter().map(|(x, _)| *x).collect();
+            let r = guarded(|| {
+                let solved = py.verif_py_csolve(l.tau.clone(), y.clone(), l.left_n, l.right_n, l.lsq).is_ok();
+                let shape = py.verif_py_shape();
+                let mm = 1 + (idx % 3) as usize;
+                let ev: Vec<(f64, Option<f64>, Option<f64>)> = xs.iter().map(|x| (*x, py.verif_py_ppev_single(Number::F64(*x)).ok(), py.verif_py_ppdnev_single(Number::F64(*x), mm).ok())).collect();
+                let arr0 = py.verif_py_ppev(xs.clone()).ok();
+                let arrm = py.verif_py_ppdnev(xs.clone(), mm).ok();
+                let xd = Dual::new(xs[xs.len() / 2], vec!["x".into()]);
+                let xd2 = Dual2::new(xs[xs.len() / 2], vec!["x".into()]);
+                let refusals = [
+                    py.verif_py_ppev_single(Number::Dual(xd.clone())).is_err(),
+                    py.verif_py_ppev_single(Number::Dual2(xd2.clone())).is_err(),
+                    py.verif_py_ppdnev_single(Number::Dual(xd.clone()), 1).is_err(),
+                    py.verif_py_ppev_single_dual(Number::Dual2(xd2.clone())).is_err(),
+                    py.verif_py_ppev_single_dual2(Number::Dual(xd.clone())).is_err(),
+                    py.verif_py_ppdnev_single_dual(Number::Dual2(xd2.clone()), 1).is_err(),
+                    py.verif_py_ppdnev_single_dual2(Number::Dual(xd.clone()), 1).is_err(),
+                ];
+                let typed = (
+                    py.verif_py_ppev_single_dual(Number::Dual(xd.clone())).ok(),
+                    py.verif_py_ppdnev_single_dual(Number::Dual(xd.clone()), mm).ok(),
+                    py.verif_py_ppev_single_dual2(Number::Dual2(xd2.clone())).ok(),
+                    py.verif_py_ppdnev_single_dual2(Number::Dual2(xd2.clone()), mm).ok(),
+                    py.verif_py_ppev_single_dual(Number::F64(xd.real())).ok(),
+                    py.verif_py_ppev_single_dual2(Number::F64(xd.real())).ok(),
+                );
+                (solved, shape, mm, ev, arr0, arrm, refusals, typed, xd, xd2)
+            });
+            ctx.eval(1);
+            ctx.class("check:python-layer");
+            match r {
+                Caught::Ok((solved, (pn, pk, pt, pc), mm, ev, arr0, arrm, refusals, typed, xd, xd2)) => {
+                    ctx.asserted((4 + 4 * xs.len() + 13) as u64);
+                    let mut bad: Option<String> = None;
+                    if !solved {
+                        bad = Some("csolve refused".into());
+                    } else if pn != n || pk != k || pt != l.t || pc.as_ref().map_or(true, |pc| pc.len() != c.len() || pc.iter().zip(c.iter()).any(|(a, b)| !same(*a, *b))) {
+                        bad = Some("n / k / t / c differ from the core spline solved on the same data".into());
+                    } else {
+                        for (j, (x, v0, vm)) in ev.iter().enumerate() {
+                            let w0 = sp.ppdnev_single(x, 0).ok();
+                            let wm = sp.ppdnev_single(x, mm).ok();
+                            let a0 = arr0.as_ref().and_then(|a| a.get(j).cloned());
+                            let am = arrm.as_ref().and_then(|a| a.get(j).cloned());
+                            let eq = |p: Option<f64>, q: Option<f64>| matches!((p, q), (Some(a), Some(b)) if same(a, b));
+                            if !eq(*v0, w0) || !eq(*vm, wm) || !eq(a0, w0) || !eq(am, wm) {
+                                bad = Some(format!("evaluation at x={} differs: ppev_single {:?} / ppdnev_single {:?} / ppev[j] {:?} / ppdnev[j] {:?} vs core {:?} {:?}", x, v0, vm, a0, am, w0, wm));
+                                break;
+                            }
+                        }
+                        if bad.is_none() && refusals.iter().any(|r| !*r) {
+                            bad = Some(format!("an abscissa of the wrong kind was accepted: {:?}", refusals));
+                        }
+                        if bad.is_none() {
+                            let d_ok = |g: &Option<Dual>, w: Result<Dual, pyo3::PyErr>| matches!((g, w), (Some(a), Ok(b)) if super::pylayer::same_dual(a, &b));
+                            let d2_ok = |g: &Option<Dual2>, w: Result<Dual2, pyo3::PyErr>| matches!((g, w), (Some(a), Ok(b)) if super::pylayer::same_dual2(a, &b));
+                            if !d_ok(&typed.0, sp.ppdnev_single_dual(&xd, 0))
+                                || !d_ok(&typed.1, sp.ppdnev_single_dual(&xd, mm))
+                                || !d2_ok(&typed.2, sp.ppdnev_single_dual2(&xd2, 0))
+                                || !d2_ok(&typed.3, sp.ppdnev_single_dual2(&xd2, mm))
+                                || !d_ok(&typed.4, sp.ppdnev_single_dual(&Dual::new(xd.real(), vec![]), 0))
+                                || !d2_ok(&typed.5, sp.ppdnev_single_dual2(&Dual2::new(xd2.real(), vec![]), 0))
+                            {
+                                bad = Some("typed evaluators (ppev_single_dual / ppdnev_single_dual / ..dual2) differ from the core".into());
+                            }
+                        }
+                    }
+                    if let Some(w) = bad {
+                        ctx.violation("C15|python-layer", case(json!({"what": w, "y": y})));
+                        return;
+                    }
+                }
+                Caught::Panic { loc, msg } => {
+                    on_panic(ctx, "python-layer", &loc, &msg, case(json!({"y": y})));
+                    return;
+                }
+            }
+        }
         if !l.lsq {
             for j in 0..m {
                 let d = if j == 0 {
